@@ -22,6 +22,8 @@ package main
 
 import (
 	"fmt"
+	"go/token"
+	"go/types"
 	"math/big"
 	"regexp"
 	"sort"
@@ -49,6 +51,7 @@ func checkC16(ctx *Ctx, r *Report, tier string) {
 		r.expectControl("O2", "verifCtlMinMaxDist2NoEdges")
 	}
 	checkUnionPrune(ctx, r)
+	checkUnionKeepsItsArguments(ctx, r)
 	checkUnionBlend(ctx, r)
 	r.floor("O1", 1)
 	r.floor("O2", 9+27+4)
@@ -831,4 +834,79 @@ func isBitTree(t *Term) bool {
 		return true
 	}
 	return false
+}
+
+// checkUnionKeepsItsArguments (O5): a union refers to the shapes it was given. Splicing the
+// operand list of a nested union into the new one ("the minimum is associative") copies the
+// inner list as it is at that moment: a blend function installed on the inner union later
+// (SetMin is a method of the object the caller still holds) is not seen by the outer one, whose
+// pruned and exhaustive evaluation then both differ from what evaluating its operands gives.
+// Decided on the constructors: nothing appended to, or stored in, the operand list is loaded
+// from a field of another object.
+func checkUnionKeepsItsArguments(ctx *Ctx, r *Report) {
+	n := 0
+	for _, name := range []string{"Union2D", "Union3D"} {
+		fn := ctx.ssaFunc("sdf", name)
+		if fn == nil {
+			r.undecided("O5", name, 0, "not found")
+			continue
+		}
+		// a value is "a part of an argument" if it is loaded from a field of a pointer that is
+		// not the object under construction
+		var fresh ssa.Value
+		allInstrs(fn, func(_ *ssa.BasicBlock, ins ssa.Instruction) {
+			if al, ok := ins.(*ssa.Alloc); ok && al.Heap && fresh == nil {
+				if pt, ok := al.Type().Underlying().(*types.Pointer); ok && strings.Contains(pt.Elem().String(), "UnionSDF") {
+					fresh = al
+				}
+			}
+		})
+		var partOf func(v ssa.Value, depth int) (bool, token.Pos)
+		partOf = func(v ssa.Value, depth int) (bool, token.Pos) {
+			if depth > 6 {
+				return false, 0
+			}
+			switch x := v.(type) {
+			case *ssa.UnOp:
+				if x.Op == token.MUL {
+					if fa, ok := x.X.(*ssa.FieldAddr); ok && fa.X != fresh {
+						if _, isSl := x.Type().Underlying().(*types.Slice); isSl {
+							return true, x.Pos()
+						}
+					}
+				}
+			case *ssa.Slice:
+				return partOf(x.X, depth+1)
+			case *ssa.Phi:
+				for _, e := range x.Edges {
+					if b, p := partOf(e, depth+1); b {
+						return true, p
+					}
+				}
+			}
+			return false, 0
+		}
+		bad := ""
+		nApp := 0
+		allInstrs(fn, func(_ *ssa.BasicBlock, ins ssa.Instruction) {
+			c, ok := ins.(*ssa.Call)
+			if !ok {
+				return
+			}
+			bi, ok := c.Call.Value.(*ssa.Builtin)
+			if !ok || (bi.Name() != "append" && bi.Name() != "copy") || len(c.Call.Args) != 2 {
+				return
+			}
+			if !strings.Contains(c.Call.Args[0].Type().String(), "SDF") {
+				return
+			}
+			nApp++
+			if b, pos := partOf(c.Call.Args[1], 0); b {
+				bad += " " + bi.Name() + " takes the operand list of another object at " + ctx.pos(pos) + ";"
+			}
+		})
+		n++
+		r.check("O5", name+"|operands-are-the-arguments-themselves", fn.Pos(), bad == "", fmt.Sprintf("%d appends/copies into the operand list, none from a field of an argument;%s", nApp, bad))
+	}
+	r.floor("O5", 2)
 }
